@@ -128,7 +128,8 @@ Proof.
   - pose proof (rd_pres 8 s) as Hp; destruct (rd 8 s) as [[p [e|]] s1] eqn:E; cbn [snd] in Hp.
     + unfold good; cbn [fst snd noeof]. split; [exact Hp|eapply rd_noeof; eassumption].
     + destruct (2 ^ 63 <=? be_dec p).
-      * unfold good; cbn [fst snd noeof]. split; [exact Hp|discriminate].
+      * unfold good; cbn [fst snd noeof]. split; [|discriminate].
+        eapply pres_trans; [exact Hp|]. unfold send. destruct (closesent s1); unfold pres; rsimpl; auto 10.
       * eapply good_trans; [exact Hp|apply good_aas4].
   - apply good_aas4.
 Qed.
